@@ -63,6 +63,7 @@ def input_assembly(
     arbitrary_names=False,
     min_scaffolds=1,
     gap_skip=1,  # a gap separates two contigs with probability (5-gap_skip)/5
+    texel_sized_gaps=False,  # gaps of about two texels (pieces that cover mostly gap)
 ):
     n_scaffolds = draw(st.integers(min_scaffolds, max_scaffolds))
     if shape is None:
@@ -94,7 +95,10 @@ def input_assembly(
                 if shape == "fasta":
                     has_gap = True  # runs of one record are always separated by a non-ACGT run
                 if has_gap:
-                    glen = draw(st.sampled_from([1, 10, 100, 200, 200, 200, 2 * T + 1]))
+                    if texel_sized_gaps:
+                        glen = draw(st.sampled_from([2 * T - 1, 2 * T, 2 * T + 1, 3 * T, 200]))
+                    else:
+                        glen = draw(st.sampled_from([1, 10, 100, 200, 200, 200, 2 * T + 1]))
                     gtype = "scaffold" if shape == "fasta" else draw(st.sampled_from(["scaffold", "scaffold", "scaffold", "contig"]))
                     rows.append(["G", glen, gtype])
                     if shape == "fasta":
@@ -433,9 +437,12 @@ def tagged_case(
     many_painted=False,
     exact=False,  # t = 1 and no cuts inside contigs: every length is known exactly
     fasta=None,  # plain FASTA to derive the input from (names already haplotype-prefixed if wanted)
+    slivers=False,  # small fractional texels, gaps of ~2 texels, many cuts near contig ends
 ):
     if exact:
         t = 1.0
+    elif slivers:
+        t = draw(st.sampled_from([1.5, 1.9, 2.5, 3.7, 7.3]))
     else:
         t = draw(texel(small=small_texel))
     two = draw(st.integers(0, 2)) == 0 if two_haplotypes is None else two_haplotypes
@@ -457,14 +464,15 @@ def tagged_case(
             sc[0] = new
     else:
         inp = draw(input_assembly(t, max_scaffolds=max_scaffolds, max_contigs=max_contigs,
-                                  min_scaffolds=3 if many_painted else 1))
+                                  min_scaffolds=3 if many_painted else 1, texel_sized_gaps=slivers,
+                                  scale=12 if slivers else 40))
     hap_of = {}
     for name, _rows in inp:
         hap_of[name] = next((h for h in haps if name.lower().startswith(h.lower() + "_")), None)
 
     pieces = []
     for name, rows in inp:
-        pieces.extend(draw(scaffold_pieces(name, rows, t, cut=True, max_cuts=3)))
+        pieces.extend(draw(scaffold_pieces(name, rows, t, cut=True, max_cuts=8 if slivers else 3)))
     if exact:
         # snap piece boundaries to contig boundaries (t = 1: every coordinate is on the grid)
         pieces = []
@@ -528,11 +536,18 @@ def tagged_case(
 
     # name tags (unique per haplotype), at most one per scaffold
     pool = {h: list(NAME_TAGS) for h in (haps or [None])}
+    used = []
     for s in final:
         if s["painted"] and draw(st.integers(0, 4)) == 0:
             p = pool[s["hap"]]
-            if p:
+            if two and used and draw(st.integers(0, 1)) == 0 and used[-1] in p:
+                # the same chromosome (e.g. X) painted in both haplotypes
+                p.remove(used[-1])
+                s["name_tag"] = used[-1]
+            elif p:
                 s["name_tag"] = p.pop(draw(st.integers(0, len(p) - 1)))
+            if s["name_tag"]:
+                used.append(s["name_tag"])
 
     # Target mode
     tm = draw(st.integers(0, 4)) == 0 if target_mode is None else target_mode
